@@ -267,11 +267,11 @@ partial def tagsOf (S : Schema) (f : Field) (v : Val) (depth : Nat) : List Strin
   | .string, .str b =>
     if b = [] then [] else ["set:string", s!"len-prefix-bytes:{(encodeVarint b.length).length}"] ++
       (if b.any (· ≥ 128) then ["string:non-ascii"] else [])
-  | .msg _, .none => ["msg:absent"]
+  | .msg _, .none => ["submsg:absent"]
   | .msg m, .msg fs =>
     let inner := ((S.fieldsOf m).zip fs).flatMap fun (g, x) => tagsOf S g x (depth + 1)
     let body := encode S m fs
-    (if body = [] then ["msg:present-empty"] else ["msg:present", s!"len-prefix-bytes:{(encodeVarint body.length).length}"]) ++
+    (if body = [] then ["submsg:present-empty"] else ["submsg:present", s!"len-prefix-bytes:{(encodeVarint body.length).length}"]) ++
       [s!"depth:{depth + 1}"] ++ inner
   | .repString, .strs l =>
     if l = [] then [] else [s!"repstring:{if l.length = 1 then "1" else "n"}"] ++
@@ -425,7 +425,7 @@ def judgeCase (S : Schema) (inp obs : Json) : Except String Verdict := do
   -- ---------- classification ----------
   let ftags := ((S.fieldsOf m).zip v).flatMap fun (f, x) =>
     let ts := tagsOf S f x 0
-    if ts.isEmpty || ts == ["msg:absent"] then ts else s!"field:{name}.{f.name}" :: ts
+    if ts.isEmpty || ts == ["submsg:absent"] then ts else s!"field:{name}.{f.name}" :: ts
   let excl := !wt
   let exclSig :=
     if !excl then ""
